@@ -20,6 +20,7 @@ import (
 	"sort"
 	"strings"
 	"sync"
+	"syscall"
 	"time"
 )
 
@@ -132,7 +133,7 @@ type Config struct {
 	ValueCost      int           // cost charged for a non-default Choose alternative
 	MaxSteps       int           // per-execution step limit (default 100000)
 	MaxExecs       int           // 0 = unlimited
-	ExecTimeout    time.Duration // wall-clock watchdog for one execution (default 60 s); see RunOnce
+	ExecTimeout    time.Duration // CPU-time watchdog for one execution (default 60 s; 20 x as wall time); see RunOnce
 	Deadline       time.Time
 	Shard, NShard  int
 	Trace          bool
@@ -531,25 +532,44 @@ func RunOnce(cfg Config, prefix []int, body func()) *Exec {
 	}()
 	// Watchdog: between two scheduling points a thread runs code under test without the scheduler's control.  Code
 	// that spins there (a loop whose exit condition a broken invariant made unreachable) never yields, and no step
-	// limit can see it.  If the execution has not ended after ExecTimeout of wall time it is abandoned with outcome
+	// limit can see it.  If the execution has not ended after ExecTimeout of CPU time it is abandoned with outcome
 	// "hang": its goroutines are left behind (they cannot be killed), the shims stop serving them, and Explore refuses
 	// to start further executions in this process.
 	timeout := cfg.ExecTimeout
 	if timeout == 0 {
 		timeout = 60 * time.Second
 	}
-	select {
-	case <-r.finished:
-		r.wg.Wait()
-	case <-time.After(timeout):
-		cur := "?"
-		if c := r.cur; c != nil {
-			cur = fmt.Sprintf("T%d(%s)", c.id, c.name)
+	// The limit is counted in CPU time of this process, not in wall time: on a machine busy with other work an
+	// execution can be off the CPU for minutes without anything being wrong with it.  A thread that blocks without
+	// consuming CPU (outside the shims) is given 20 x the limit of wall time.
+	tick := time.NewTimer(time.Second)
+	var cpu0 time.Duration
+	wall0 := time.Now()
+	for done, first := false, true; !done; {
+		select {
+		case <-r.finished:
+			r.wg.Wait()
+			done = true
+		case <-tick.C:
+			if first {
+				cpu0, first = selfCPU(), false
+			}
+			used := selfCPU() - cpu0
+			if used <= timeout && time.Since(wall0) <= 20*timeout {
+				tick.Reset(time.Second)
+				continue
+			}
+			cur := "?"
+			if c := r.cur; c != nil {
+				cur = fmt.Sprintf("T%d(%s)", c.id, c.name)
+			}
+			r.outcome = Outcome{"hang", fmt.Sprintf("the execution did not end within %s of CPU time (%s of wall time) after %d scheduling steps: thread %s has not reached a scheduling point (it spins or blocks in code the scheduler does not control)", timeout, time.Since(wall0).Round(time.Second), r.steps, cur)}
+			r.aborted = true
+			Hung = true
+			done = true
 		}
-		r.outcome = Outcome{"hang", fmt.Sprintf("the execution did not end within %s of wall time after %d scheduling steps: thread %s has not reached a scheduling point (it spins or blocks in code the scheduler does not control)", timeout, r.steps, cur)}
-		r.aborted = true
-		Hung = true
 	}
+	tick.Stop()
 	rcur = nil
 	x := &Exec{Choices: r.Choices, Points: r.Points, Outcome: r.outcome, Trace: r.Trace, Steps: r.steps, Races: r.races, Leaked: r.leaked}
 	lastStates = r.stateH
@@ -557,6 +577,12 @@ func RunOnce(cfg Config, prefix []int, body func()) *Exec {
 }
 
 var lastStates map[uint64]struct{}
+
+func selfCPU() time.Duration {
+	var ru syscall.Rusage
+	syscall.Getrusage(syscall.RUSAGE_SELF, &ru)
+	return time.Duration(ru.Utime.Nano() + ru.Stime.Nano())
+}
 
 // Hung is set once an execution of this process had to be abandoned by the watchdog: a goroutine of the code under
 // test is still running (and burning a CPU); nothing explored afterwards in this process is reliable.
